@@ -138,6 +138,68 @@ impl PriceValidator {
     }
 }
 
+/// Public entries for the solver-based checks in `/verif` (`--cfg gmsol_verif`); thin wrappers only.
+#[cfg(gmsol_verif)]
+impl PriceValidator {
+    /// Construct a validator from its parts (as `TryFrom<&Store>` does, with an explicit clock).
+    pub fn verif_new(
+        clock: Clock,
+        max_age: Amount,
+        max_oracle_timestamp_range: Amount,
+        max_future_timestamp_excess: Amount,
+    ) -> Self {
+        Self {
+            clock,
+            max_age,
+            max_oracle_timestamp_range,
+            max_future_timestamp_excess,
+            min_oracle_ts: i64::MAX,
+            max_oracle_ts: i64::MIN,
+            min_oracle_slot: None,
+        }
+    }
+
+    /// See `validate_one`.
+    pub fn verif_validate_one(
+        &mut self,
+        token_config: &TokenConfig,
+        provider: &PriceProviderKind,
+        oracle_ts: i64,
+        oracle_slot: u64,
+        price: &Price,
+        ref_price: Option<&Decimal>,
+    ) -> Result<()> {
+        self.validate_one(
+            token_config,
+            provider,
+            oracle_ts,
+            oracle_slot,
+            price,
+            ref_price,
+        )
+    }
+
+    /// See `merge_range`.
+    pub fn verif_merge_range(
+        &mut self,
+        min_oracle_slot: Option<u64>,
+        min_oracle_ts: i64,
+        max_oracle_ts: i64,
+    ) {
+        self.merge_range(min_oracle_slot, min_oracle_ts, max_oracle_ts)
+    }
+
+    /// See `finish`.
+    pub fn verif_finish(self) -> Result<Option<(u64, i64, i64)>> {
+        self.finish()
+    }
+
+    /// The accumulated `(min_oracle_slot, min_oracle_ts, max_oracle_ts)`.
+    pub fn verif_range(&self) -> (Option<u64>, i64, i64) {
+        (self.min_oracle_slot, self.min_oracle_ts, self.max_oracle_ts)
+    }
+}
+
 impl<'a> TryFrom<&'a Store> for PriceValidator {
     type Error = anchor_lang::error::Error;
 
